@@ -1039,6 +1039,8 @@ def parse_next(
         current_symbol = opcode_aliases[current_symbol]
     if current_symbol in ('PUSH', 'TRY', 'DEF', 'IF'):
         current_symbol = 'OP_' + current_symbol
+    # nb: the block parsers below get the resolved name, so that aliases
+    # of OP_IF / OP_DEF / OP_TRY / OP_LOOP work like those of other ops
 
     yert(
         current_symbol in opcodes_inverse
@@ -1062,13 +1064,21 @@ def parse_next(
     elif current_symbol[0] == '!':
         advance, parts = invoke_macro(symbols[index:], macros=macros)
     elif current_symbol == 'OP_IF':
-        advance, parts = parse_if(symbols[index:], symbol_index+index, macros)
+        advance, parts = parse_if(
+            [current_symbol, *symbols[index+1:]], symbol_index+index, macros
+        )
     elif current_symbol == 'OP_DEF':
-        advance, parts = parse_def(symbols[index:], symbol_index+index, macros)
+        advance, parts = parse_def(
+            [current_symbol, *symbols[index+1:]], symbol_index+index, macros
+        )
     elif current_symbol == 'OP_TRY':
-        advance, parts = parse_try(symbols[index:], symbol_index+index, macros)
+        advance, parts = parse_try(
+            [current_symbol, *symbols[index+1:]], symbol_index+index, macros
+        )
     elif current_symbol == 'OP_LOOP':
-        advance, parts = parse_loop(symbols[index:], symbol_index+index, macros)
+        advance, parts = parse_loop(
+            [current_symbol, *symbols[index+1:]], symbol_index+index, macros
+        )
     else:
         vert(current_symbol in opcodes_inverse
             or current_symbol in nopcodes_inverse
